@@ -299,7 +299,7 @@ def _string_new(I, a, ci, dt):
     return new_string(I, ())
 
 
-@reg('String::push_str')
+@reg('String::push_str', 'OsString::push')
 def _push_str(I, a, ci, dt):
     s = I.load(a[0])
     t = as_sstr(I, a[1])
@@ -314,7 +314,7 @@ def _push(I, a, ci, dt):
     return UNIT
 
 
-@reg('String::clear')
+@reg('String::clear', 'OsString::clear', 'PathBuf::clear')
 def _clear(I, a, ci, dt):
     s = I.load(a[0])
     I.store(a[0], SString((), s.alloc))
